@@ -53,8 +53,8 @@ def plan(tier):
         J.append(job("sig_single_b", Kinds=q(["signed"]), Pairs=q(PAIRS), SmFlags=b([True, False]), CLens=S([33]), Shapes=q(SHAPES),
                      Extras=q(["none", "xattr", "uattr", "both"]), FieldSel=q(SFIELDS), PosSel=q(["mid"]), Masks=S([1, 128, 255])))
     J.append(job("sig_rt", Kinds=q(["signed"]), Pairs=q(PAIRS), SmFlags=b([True, False]), CLens=S(CLENS), Shapes=q(SHAPES), Extras=q(["none", "both"]), Apis=q(["pkcs7", "cfca"])))
-    J.append(job("sig_multi", Kinds=q(["signed"]), Multi=q(MULTI), SmFlags=b([False] if quick else [True, False]), CLens=S([17] if quick else [0, 17, 1000]), Shapes=q(SHAPES),
-                 Extras=q(["none"] if quick else ["none", "both"]), FieldSel=q(SFIELDS), PosSel=q(pos), Masks=S([1] if quick else masks)))
+    J.append(job("sig_multi", Kinds=q(["signed"]), Multi=q(MULTI), SmFlags=b([False]), CLens=S([17] if quick else [17, 1000]), Shapes=q(SHAPES),
+                 Extras=q(["none"] if quick else ["none", "both"]), FieldSel=q(SFIELDS), PosSel=q(pos), Masks=S([1] if quick else [1, 128])))
     if not quick:  # every position of the short protected fields
         J.append(job("sig_allpos", Kinds=q(["signed"]), Pairs=q(PAIRS), SmFlags=b([True]), CLens=S([33]), Shapes=q(SHAPES), Extras=q(["both"]),
                      FieldSel=q(["content", "md", "attr", "xattr", "sig", "certkey"]), PosSel=q(["all"]), Masks=S([1, 128])))
@@ -64,13 +64,13 @@ def plan(tier):
                      ByteK=16, ByteCLens=S([17]), ByteVals='"all"'))
         J.append(job("sig_byte_sm2p", Kinds=q(["signed"]), Pairs=q(["sm2-sm3"]), SmFlags=b([True]), Shapes=q(["att-plain", "det-plain", "dig-plain"]), Apis=q(["cfca"]),
                      ByteK=4, ByteCLens=S([17]), ByteVals='"m8"'))
-        J.append(job("sig_byte_other", Kinds=q(["signed"]), Pairs=q(["rsa-sha256", "ecdsa-sha384"]), Multi=q(["s1r1"]), Shapes=q(["att-attrs", "dig-plain"]),
-                     ByteK=4, ByteCLens=S([17]), ByteVals='"m3"'))
+        J.append(job("sig_byte_other", Kinds=q(["signed"]), Pairs=q(["rsa-sha256", "ecdsa-sha384"]), Multi=q(["s1r1", "sc"]), Shapes=q(["att-attrs", "dig-plain"]),
+                     ByteK=4, ByteCLens=S([17]), ByteVals='"m8"'))
     else:
-        J.append(job("sig_byte_sm2", Kinds=q(["signed"]), Pairs=q(["sm2-sm3"]), SmFlags=b([True]), CLens=S([0, 33]), Shapes=q(SHAPES), Extras=q(["none", "both"]),
-                     Apis=q(["pkcs7", "cfca"]), ByteK=16, ByteCLens=S([0, 33]), ByteVals='"all"'))
-        J.append(job("sig_byte_sm2p", Kinds=q(["signed"]), Pairs=q(["sm2-sm3"]), SmFlags=b([False]), CLens=S([17]), Shapes=q(SHAPES), Extras=q(["none", "xattr", "uattr"]),
-                     ByteK=8, ByteCLens=S([17]), ByteVals='"m8"'))
+        J.append(job("sig_byte_sm2", Kinds=q(["signed"]), Pairs=q(["sm2-sm3"]), SmFlags=b([True]), CLens=S([33]), Shapes=q(SHAPES), Extras=q(["none", "both"]),
+                     Apis=q(["pkcs7", "cfca"]), ByteK=16, ByteCLens=S([33]), ByteVals='"all"'))
+        J.append(job("sig_byte_sm2p", Kinds=q(["signed"]), Pairs=q(["sm2-sm3"]), SmFlags=b([False]), CLens=S([0, 17]), Shapes=q(SHAPES), Extras=q(["none", "xattr", "uattr"]),
+                     ByteK=8, ByteCLens=S([0, 17]), ByteVals='"m8"'))
         J.append(job("sig_byte_other", Kinds=q(["signed"]), Pairs=q(PAIRS[1:]), SmFlags=b([False]), CLens=S([33]), Shapes=q(SHAPES), Extras=q(["none"]),
                      ByteK=16, ByteCLens=S([33]), ByteVals='"m8"'))
         J.append(job("sig_byte_multi", Kinds=q(["signed"]), Multi=q(MULTI), CLens=S([17]), Shapes=q(["att-attrs", "det-plain", "dig-attrs"]),
@@ -79,7 +79,7 @@ def plan(tier):
     J.append(job("env_rt", Kinds=q(["enveloped", "encrypted"]), CipherSel=q(CIPHERS), Variants=q(VARIANTS), RecipSel=q(["s1", "r1", "s1r1", "s2r1s1"] + ([] if quick else ["s1s2s3", "r1r2", "sc"])),
                  SmFlags=b([True, False]), CLens=S(CLENS), Apis=q(["pkcs7", "cfca"])))
     J.append(job("env_field", Kinds=q(["enveloped", "encrypted"]), CipherSel=q(CIPHERS), Variants=q(VARIANTS), RecipSel=q(["s1r1"] if quick else ["s1r1", "s2r1s1"]),
-                 SmFlags=b([True]), CLens=S([17] if quick else [0, 17, 32]), Apis=q(["pkcs7"] if quick else ["pkcs7", "cfca"]), FieldSel=q(EFIELDS), PosSel=q(pos), Masks=S(masks)))
+                 SmFlags=b([True]), CLens=S([17]), Apis=q(["pkcs7"] if quick else ["pkcs7", "cfca"]), FieldSel=q(EFIELDS), PosSel=q(pos), Masks=S([1, 128])))
     if quick:
         J.append(job("env_byte", Kinds=q(["enveloped"]), CipherSel=q(["sm4cbc", "sm4gcm"]), Variants=q(["sm"]), RecipSel=q(["s1s2"]), ByteK=16, ByteCLens=S([17]), ByteVals='"all"'))
         J.append(job("env_byte_rsa", Kinds=q(["enveloped", "encrypted"]), CipherSel=q(["aes128cbc", "sm4ecb"]), Variants=q(["std", "ski"]), RecipSel=q(["s1r1"]), ByteK=4, ByteCLens=S([17]), ByteVals='"m3"'))
@@ -91,8 +91,9 @@ def plan(tier):
         J.append(job("env_byte_rsa", Kinds=q(["enveloped"]), CipherSel=q(CIPHERS), Variants=q(VARIANTS), RecipSel=q(["s1r1"]), CLens=S([17]), Apis=q(["pkcs7", "cfca"]),
                      ByteK=8, ByteCLens=S([17]), ByteVals='"m8"'))
     # ---- SignedAndEnvelopedData
-    J.append(job("ses_rt", Kinds=q(["ses"]), CipherSel=q(CIPHERS), Pairs=q(["sm2-sm3", "rsa-sha256", "ecdsa-sha256"] if quick else PAIRS), Multi=q(["s1r1"] if quick else ["s1r1", "sc", "s1s2s3"]),
-                 SmFlags=b([True, False]), RecipSel=q(["s1", "s1r1"] if quick else ["s1", "r1", "s1r1", "s2r1s1"]), CLens=S([0, 17, 1000] if quick else CLENS)))
+    J.append(job("ses_rt", Kinds=q(["ses"]), CipherSel=q(CIPHERS), Pairs=q(["sm2-sm3", "rsa-sha256", "ecdsa-sha256"] if quick else ["sm2-sm3", "rsa-sha1", "rsa-sha256", "ecdsa-sha256", "ecdsa-sha512"]),
+                 Multi=q(["s1r1"] if quick else ["s1r1", "sc"]), SmFlags=b([True, False]), RecipSel=q(["s1", "s1r1"] if quick else ["s1", "r1", "s1r1", "s2r1s1"]),
+                 CLens=S([0, 17, 1000] if quick else [0, 1, 16, 17, 1000])))
     J.append(job("ses_field", Kinds=q(["ses"]), CipherSel=q(["sm4cbc", "sm4gcm", "aes256gcm", "3descbc"] if quick else CIPHERS), Pairs=q(["sm2-sm3", "rsa-sha256"]), Multi=q([] if quick else ["s1r1"]),
                  SmFlags=b([True]), RecipSel=q(["s1r1"]), CLens=S([17]), FieldSel=q(EFIELDS + ["sig", "certkey", "certsig", "certbody", "sid", "dalg", "dalgalias", "ealg", "ealgalias", "hdalgs"]),
                  PosSel=q(pos), Masks=S([1] if quick else masks)))
@@ -193,14 +194,14 @@ def run(ctx):
     for name, consts in plan(ctx.tier):
         o = "%s.%s" % (out, name)
         outs.append(o)
-        jobs.append(dict(module="MC_C16", name="MC_C16_" + name, view="View", workers=3, timeout=2400, heap="3g",
+        jobs.append(dict(module="MC_C16", name="MC_C16_" + name, view="View", workers=3, timeout=2400, heap="3g" if quick else "5g",
                          constants=dict(consts, Seed=ctx.seed, OutFile=core.tla_str(o)), invariants=INVARIANTS))
     berout = os.path.join(ctx.scratch, "c16ber.ndjson")
-    jobs.append(dict(module="MC_C16ber", name="MC_C16ber", workers=3, timeout=2400, heap="3g", invariants=("DerUnchanged", "BerNormalised"),
-                     constants=dict(Seed=ctx.seed, LeafTags=q(["04", "02", "80", "5f1f"] if quick else ["04", "02", "05", "13", "80", "5f1f", "9f8101"]),
-                                    LeafLens=S([0, 1, 126, 127, 128, 253, 256] if quick else [0, 1, 2, 125, 126, 127, 128, 129, 252, 253, 254, 255, 256, 257]),
-                                    ConsTags=q(["30", "a0", "bf8100"] if quick else ["30", "31", "a0", "a3", "bf8100", "7f21"]),
-                                    NestLens=S([0, 126] if quick else [0, 1, 126]), BigLens=S([65535, 65536]), OutFile=core.tla_str(berout))))
+    jobs.append(dict(module="MC_C16ber", name="MC_C16ber", workers=3 if quick else 6, timeout=2400, heap="3g", invariants=("DerUnchanged", "BerNormalised"),
+                     constants=dict(Seed=ctx.seed, LeafTags=q(["04", "02", "80", "5f1f"] if quick else ["04", "02", "13", "80", "5f1f", "9f8101"]),
+                                    LeafLens=S([0, 1, 126, 127, 128, 253, 256] if quick else [0, 1, 125, 126, 127, 128, 252, 253, 255, 256]),
+                                    ConsTags=q(["30", "a0", "bf8100"] if quick else ["30", "31", "a0", "bf8100", "7f21"]),
+                                    NestLens=S([0, 126]), BigLens=S([65535, 65536]), OutFile=core.tla_str(berout))))
     big = ("sig_single", "env_rt", "ses_rt", "sig_multi", "sig_rt", "MC_C16ber", "env_field")
     jobs.sort(key=lambda j: ([j["name"].endswith(x) for x in big] + [True]).index(True))
     t0 = time.time()
@@ -218,7 +219,14 @@ def run(ctx):
     n_pg = max(2, core.NCPU - n_def)
     sh_def, tot_def = split(ctx, out, n_def, "c16-default")
     # (the byte-level classes exercise parsing and the verify / open logic, which is the same Go code: a quarter of them suffices there)
-    sh_pg, tot_pg = split(ctx, out, n_pg, "c16-purego", keep=lambda t: uses_sm(t) and not any(st.get("rel") == "all" or (st["op"] == "tamperbytes" and st["cls"] * 4 >= st["of"]) for st in t["steps"]))
+    cnt = [0]
+
+    def keep_purego(t):
+        if not uses_sm(t) or any(st.get("rel") == "all" or (st["op"] == "tamperbytes" and st["cls"] * 4 >= st["of"]) for st in t["steps"]):
+            return False
+        cnt[0] += 1
+        return quick or heavy(t) or cnt[0] % 3 == 0          # thorough: every third of the remaining cases
+    sh_pg, tot_pg = split(ctx, out, n_pg, "c16-purego", keep=keep_purego)
     work = [(f, cf_default) for f in sh_def] + [(f, cf_purego) for f in sh_pg]
     if hook:
         work += [(berout, cf_default), (berout, cf_purego)]
